@@ -24,6 +24,8 @@ def resolve_alias(func: ast.AST, expr: ast.AST, depth: int = 0) -> ast.AST:
         values = bound_from(func, expr.id)
         if len(values) == 1 and isinstance(values[0], (ast.Attribute, ast.Name)) and values[0] is not expr:
             return resolve_alias(func, values[0], depth + 1)
+        if len(values) == 1 and isinstance(values[0], ast.Subscript) and isinstance(values[0].slice, ast.Slice):
+            return values[0]   # a named slice of a list (`shifted = self._regions[index:]`)
     return expr
 
 
